@@ -107,7 +107,14 @@ def main():
             cases.append((cid, script(cid, lp, cfg, ck.rng)))
             meta[cid] = (lp, cfg)
     for li, lp in enumerate(lps_cov):
-        for ci, cfg in enumerate(cov):
+        cfgs = list(cov)
+        if lp.get("dep_cols"):
+            # LPs naming dependent column pairs: singular warm-start bases through the direct entry points under every pricing rule
+            for e_ in ("PRIMAL", "DUAL"):
+                for pi_ in range(4):
+                    for sc_ in (0, 1):
+                        cfgs.append(dict(cov[0], entry=e_, pp=PPRICE[pi_], dp=DPRICE[pi_], scale=sc_, warm="arb", prec=128, repeat=0))
+        for ci, cfg in enumerate(cfgs):
             cid = "C%d.%d" % (li, ci)
             cases.append((cid, script(cid, lp, cfg, ck.rng)))
             meta[cid] = (lp, cfg)
